@@ -178,6 +178,8 @@ package simulation
 //@   loop 0: invariant -1 <= rangeindex && rangeindex < len(sorted) && len(sorted) == len(entries) && (len(sorted) == 0 || fresh(sorted)) && seen != nil && fresh(seen) && tw != nil && gz != nil
 //@   loop 0: invariant permOf(Slice_pi, len(entries)) && (forall k in 0..len(sorted) :: sorted[k].name == entries[Slice_pi[k]].name && ref(sorted[k].data) == ref(entries[Slice_pi[k]].data))
 //@   loop 0: invariant forall i in 0..len(sorted) :: forall j in 0..len(sorted) :: i < j ==> !strlt(sorted[j].name, sorted[i].name)
+//@   loop 0: invariant len(sorted) >= 2 ==> !strlt(sorted[1].name, sorted[0].name)        // ground instance of the previous invariant (so a broken sort order is refuted, not merely undecided)
+//@   loop 0: invariant rangeindex >= 1 ==> sorted[0].name != sorted[1].name                  // ground instance of the distinctness invariant below
 //@   loop 0: invariant tarWritten == old(tarWritten) + 2 + rangeindex && tarName[old(tarWritten)] == buildIDPath && logKeeps(old(tarWritten))
 //@   loop 0: invariant forall k in 0..rangeindex + 1 :: tarDataRef[old(tarWritten) + 1 + k] == ref(sorted[k].data) && tarMode[old(tarWritten) + 1 + k] == 384
 //@   loop 0: invariant forall k in 0..rangeindex + 1 :: sorted[k].name in seen
